@@ -198,7 +198,10 @@ Definition reload (s : store) (fo : file_outcome) (next : pool_id) : store * res
 Record client := { cdb : db; cuser : user; cclone : pool_id; cheld : option server_id; ctmo : nat;
                    cset : pool_id   (* the pool object whose settings the client's query router works with (plugins, parser
                                        flags, sharding function and shard count, default role): query_router.update_pool_settings,
-                                       client.rs:900 at start-up and :1104 in the refresh block of every checkout *) }.
+                                       client.rs: at start-up, when a message
+                                       arrives in the idle state (c3cef0c; in this model the first message of a transaction IS its [OBegin]) and in the
+                                       refresh block of every checkout.  NOT covered by [cset]: the session's active role, copied from default_role at
+                                       connect only (finding D4) *) }.
 Record server := { sid : server_id; spool : pool_id; sholder : option cid }.
 
 Record world := {
